@@ -1,2 +1,223 @@
-/- driver stub for C06: replaced when the model exists -/
-def main : IO Unit := pure ()
+/- driver for C06: one network-layer node in lockstep (stateful) + the global simulator -/
+import BacVerif.Drv.Common
+import BacVerif.Model.Route
+open Lean BacVerif BacVerif.Drv BacVerif.Route
+
+def jOptNat : Option Nat → Json
+  | none => Json.null
+  | some n => Json.num n
+
+def jOptHex : Option Bytes → Json
+  | none => Json.null
+  | some b => jHex b
+
+def optOf (j : Json) (k : String) : Option Json :=
+  match j.getObjVal? k with
+  | .ok Json.null => none
+  | .ok v => some v
+  | .error _ => none
+
+def hexOf (v : Json) : R Bytes := do
+  match ofHex? (← v.getStr?) with
+  | some b => pure b
+  | none => throw "bad hex"
+
+def optNat (j : Json) (k : String) : R (Option Nat) :=
+  match optOf j k with
+  | none => pure none
+  | some v => do pure (some (← v.getNat?))
+
+def optHex (j : Json) (k : String) : R (Option Bytes) :=
+  match optOf j k with
+  | none => pure none
+  | some v => do pure (some (← hexOf v))
+
+def linkOf (j : Json) (k : String) : R Link := do
+  match ← optHex j k with
+  | none => pure .bcast
+  | some m => pure (.to m)
+
+def jLink : Link → Json
+  | .bcast => Json.null
+  | .to m => jHex m
+
+def dadrOf (v : Json) : R Dadr := do
+  let a ← v.getArr?
+  match ← a[0]!.getStr? with
+  | "rs" => pure (.rs (← a[1]!.getNat?) (← hexOf a[2]!))
+  | "rb" => pure (.rb (← a[1]!.getNat?))
+  | "gb" => pure .gb
+  | k => throw s!"bad dadr {k}"
+
+def jDadr : Dadr → Json
+  | .rs n m => Json.arr #["rs", Json.num n, jHex m]
+  | .rb n => Json.arr #["rb", Json.num n]
+  | .gb => Json.arr #["gb"]
+
+def addrOf (v : Json) : R Addr := do
+  let a ← v.getArr?
+  match ← a[0]!.getStr? with
+  | "ls" => pure (.localStation (← hexOf a[1]!))
+  | "lb" => pure .localBroadcast
+  | "rs" => pure (.remoteStation (← a[1]!.getNat?) (← hexOf a[2]!))
+  | "rb" => pure (.remoteBroadcast (← a[1]!.getNat?))
+  | "gb" => pure .global
+  | "null" => pure .null
+  | k => throw s!"bad addr {k}"
+
+def jAddr : Addr → Json
+  | .localStation m => Json.arr #["ls", jHex m]
+  | .localBroadcast => Json.arr #["lb"]
+  | .remoteStation n m => Json.arr #["rs", Json.num n, jHex m]
+  | .remoteBroadcast n => Json.arr #["rb", Json.num n]
+  | .global => Json.arr #["gb"]
+  | .null => Json.arr #["null"]
+
+def npciOf (j : Json) : R Npci := do
+  let dadr ← match optOf j "dadr" with
+    | none => pure none
+    | some v => do pure (some (← dadrOf v))
+  let sadr ← match optOf j "sadr" with
+    | none => pure none
+    | some v => do
+        let a ← v.getArr?
+        pure (some ((← a[0]!.getNat?), (← hexOf a[1]!)))
+  pure { dadr := dadr, sadr := sadr,
+         hop := (← optNat j "hop").getD 0,
+         msg := ← optNat j "msg",
+         vendor := ← optNat j "vendor",
+         er := (← fldBool j "er"),
+         prio := (← fldNat j "prio"),
+         data := (← fldHex j "data") }
+
+def jNpci (p : Npci) : Json :=
+  Json.mkObj [
+    ("dadr", match p.dadr with | none => Json.null | some d => jDadr d),
+    ("sadr", match p.sadr with | none => Json.null | some (n, m) => Json.arr #[Json.num n, jHex m]),
+    ("hop", if p.dadr.isSome then Json.num p.hop else Json.null),
+    ("msg", jOptNat p.msg),
+    ("vendor", jOptNat p.vendor),
+    ("er", Json.bool p.er),
+    ("prio", Json.num p.prio),
+    ("data", jHex p.data)]
+
+def adapterOf (j : Json) : R Adapter := do
+  pure { aid := ← fldNat j "aid", net := ← optNat j "net", addr := ← optHex j "addr",
+         conf := ← optNat j "conf", lan := fldNatD j "lan" 0,
+         mac := (← optHex j "mac").getD [] }
+
+def jAdapter (a : Adapter) : Json :=
+  Json.arr #[Json.num a.aid, jOptNat a.net, jOptHex a.addr, jOptNat a.conf]
+
+def cacheOf (j : Json) : R Cache := do
+  match optOf j "cache" with
+  | none => pure []
+  | some v => do
+    let es ← v.getArr?
+    es.toList.mapM fun e => do
+      let a ← e.getArr?
+      let sn ← match a[0]! with
+        | Json.null => pure none
+        | v => do pure (some (← v.getNat?))
+      pure ((sn, ← a[1]!.getNat?), ← hexOf a[2]!)
+
+def jCache (c : Cache) : Json :=
+  Json.arr (c.map fun e => Json.arr #[jOptNat e.1.1, Json.num e.1.2, jHex e.2]).toArray
+
+def nodeOf (j : Json) : R Node := do
+  let ads ← (← fldArr j "adapters").toList.mapM adapterOf
+  pure { adapters := ads, localAid := fldNatD j "local" 0, hasApp := ← fldBool j "app" }
+
+def stOf (j : Json) : R St := do
+  pure { node := ← nodeOf j, cache := ← cacheOf j }
+
+def jUp (u : Up) : List (String × Json) :=
+  [("src", jAddr u.src), ("dst", match u.dst with | none => Json.null | some d => jAddr d),
+   ("er", Json.bool u.er), ("prio", Json.num u.prio), ("data", jHex u.data)]
+
+def jOut : Out → Json
+  | .send a l p => Json.mkObj [("k", "send"), ("aid", Json.num a.aid), ("dst", jLink l), ("npci", jNpci p)]
+  | .up u => Json.mkObj (("k", "up") :: jUp u)
+  | .raised k => Json.mkObj [("k", "raised"), ("e", k.name)]
+
+def jDigest (s : St) : Json :=
+  Json.mkObj [
+    ("adapters", Json.arr (s.node.adapters.map jAdapter).toArray),
+    ("local", Json.num s.node.localAid),
+    ("pending", Json.arr (s.pending.map fun e =>
+        Json.arr #[Json.num e.1, Json.arr (e.2.map jNpci).toArray]).toArray),
+    ("cache", jCache s.cache),
+    ("nni", Json.arr #[jOptNat s.nniTask, Json.bool s.nniArmed])]
+
+def reply (s : St) (outs : List Out) (br : String) : Json :=
+  Json.mkObj [("out", Json.arr (outs.map jOut).toArray), ("digest", jDigest s), ("br", br)]
+
+/-- branch signature of a received frame, from the pure decision -/
+def brOf (s : St) (arr : Adapter) (src : Mac) (dst : Link) (p : Npci) : String :=
+  let d := route s.node s.cache arr src dst p
+  let kind := match p.dadr with | none => "-" | some (.rs ..) => "rs" | some (.rb _) => "rb" | some .gb => "gb"
+  let nsend := d.sends.length
+  s!"recv/{kind}/sadr={p.sadr.isSome}/msg={p.msg}/drop={d.dropped}/up={d.up.isSome}/nse={d.toNse}/out={min nsend 2}/n={min s.node.adapters.length 3}"
+
+def jDelivery (d : Delivery) : Json :=
+  Json.mkObj (("lan", Json.num d.lan) :: ("mac", jHex d.mac) :: jUp d.up)
+
+def packetOf (j : Json) : R Packet := do
+  pure { lan := ← fldNat j "lan", src := ← fldHex j "src", dst := ← linkOf j "dst",
+         npci := ← npciOf (← fld j "npci") }
+
+def tnodeOf (j : Json) : R TNode := do
+  pure { node := ← nodeOf j, cache := ← cacheOf j }
+
+def handle (s : St) (j : Json) : R (St × Json) := do
+  match ← fldStr j "op" with
+  | "reset" =>
+      let s' ← stOf j
+      pure (s', reply s' [] "reset")
+  | "known" =>
+      pure (s, Json.mkObj [("r", "ok"), ("types", Json.arr (knownTypes.map (fun (n : Nat) => (Json.num n : Json))).toArray)])
+  | "recv" =>
+      let aid ← fldNat j "aid"
+      match s.adapter aid with
+      | none => throw s!"no adapter {aid}"
+      | some arr =>
+        let src ← fldHex j "src"
+        let dst ← linkOf j "dst"
+        let p ← npciOf (← fld j "npci")
+        let (s', o) := recv s arr src dst p
+        pure (s', reply s' o (brOf s arr src dst p))
+  | "send" =>
+      let dest ← addrOf (← fld j "dest")
+      let (s', o) := originate s dest (← fldBool j "er") (← fldNat j "prio") (← fldHex j "data")
+      let kind := match dest with
+        | .localStation _ => "ls" | .localBroadcast => "lb" | .remoteStation .. => "rs"
+        | .remoteBroadcast _ => "rb" | .global => "gb" | .null => "null"
+      pure (s', reply s' o s!"send/{kind}/out={min o.length 2}/pend={min s'.pending.length 2}/n={min s.node.adapters.length 3}")
+  | "startup" => pure (s, reply s (startup s) "startup")
+  | "ask_nn" => pure (s, reply s (askNetworkNumber s) "ask_nn")
+  | "announce_nn" => pure (s, reply s (announceNetworkNumber s) "announce_nn")
+  | "fire" =>
+      let (s', o) := fireNni s
+      pure (s', reply s' o "fire")
+  | "deliver" =>
+      -- global simulator: static topology, one or more frames in flight
+      let topo ← (← fldArr j "topo").toList.mapM tnodeOf
+      let pk ← (← fldArr j "packets").toList.mapM packetOf
+      let ds := pk.flatMap (deliverAll topo)
+      pure (s, Json.mkObj [("r", "ok"), ("deliveries", Json.arr (ds.map jDelivery).toArray)])
+  | "deliver_from" =>
+      -- originate at node `from`, then the global simulator on every frame it emits
+      let topo ← (← fldArr j "topo").toList.mapM tnodeOf
+      let i ← fldNat j "from"
+      match topo[i]? with
+      | none => throw "no such node"
+      | some t =>
+        let dest ← addrOf (← fld j "dest")
+        let (s', o) := originate { node := t.node, cache := t.cache } dest (← fldBool j "er") (← fldNat j "prio") (← fldHex j "data")
+        let ds := (originPackets o).flatMap (deliverAll topo)
+        pure (s, Json.mkObj [("r", "ok"), ("deliveries", Json.arr (ds.map jDelivery).toArray),
+                             ("parked", Json.num s'.pending.length),
+                             ("out", Json.arr (o.map jOut).toArray)])
+  | op => throw s!"unknown op {op}"
+
+def main : IO Unit := loopS (default : St) handle
